@@ -114,3 +114,11 @@ Theorem C02_restart_refutes_applied_le_commit : exists cfg g0 ls g,
   cinit_snap_ok cfg g0 /\ Forall label_ok ls /\ crun true [cfg] g0 ls = Some g /\
   ~ applied_within_commit g /\ applied_within_snap g.
 Proof. exact restart_from_snapshot_refutes_applied_within_commit. Qed.
+
+(* Tie 2b (translator, every run): on every path of the regenerated appendEntries a failed truncation or a failed
+   StoreLogs is never followed by a store or by success (what an FSM is later handed rests on it: round-4 seed C02d) *)
+From RaftModel Require Import GenTrees Trees GenTreesAE.
+From RaftProofs Require Import GenTreesAESpec.
+Theorem C02_regenerated_appendEntries_never_succeeds_over_a_failed_store : append_entries_effects_in_order.
+Proof. exact append_entries_effects_in_order_holds. Qed.
+Print Assumptions C02_regenerated_appendEntries_never_succeeds_over_a_failed_store.
